@@ -1,5 +1,8 @@
 import Lean.Data.Json
 import Smoke.Scan
+import Smoke.ExpParse
+import Smoke.CodeScan
+import Smoke.Eval
 open Lean HS
 
 def posJ (p : Pos) : Json := Json.arr #[p.line, p.col]
@@ -21,6 +24,25 @@ partial def loop (h : IO.FS.Stream) (out : IO.FS.Stream) : IO Unit := do
   match Json.parse line with
   | .ok j =>
     let s := (j.getObjValAs? String "src").toOption.getD ""
+    if (j.getObjValAs? String "op").toOption == some "codescan" then
+      let ts := CS.scan ⟨1, 1⟩ s.toList
+      let kindN : CS.Kind → Nat
+        | .begEnd => 1 | .literal => 2 | .codeStart => 3 | .codeValue => 4 | .codeEnd => 5
+      out.putStrLn (Json.compress (Json.arr (ts.toArray.map fun t =>
+        Json.mkObj [("k", kindN t.kind), ("v", strJ t.value), ("s", posJ t.start), ("e", posJ t.stop)])))
+      out.flush
+      return ← loop h out
+    if (j.getObjValAs? String "op").toOption == some "eval" then
+      out.putStrLn (Json.compress (Json.str (EV.run s)))
+      out.flush
+      return ← loop h out
+    if (j.getObjValAs? String "op").toOption == some "parse" then
+      match EL.parseCode s with
+      | .accept e => out.putStrLn (Json.compress (Json.mkObj [("r", "accept"), ("t", Json.str e.sexp)]))
+      | .reject => out.putStrLn (Json.compress (Json.mkObj [("r", "reject")]))
+      | .unsupported => out.putStrLn (Json.compress (Json.mkObj [("r", "unsupported")]))
+      out.flush
+      return ← loop h out
     let tt := (j.getObjValAs? (Array String) "textTags").toOption.getD #[]
     let cfg : Cfg := { textTags := tt.toList.map String.toList }
     match scan cfg s.toList with
